@@ -34,8 +34,8 @@ CLAIM = (
 )
 NOTE = (
     "Trusted: linearity of the three linear operators (itself checked on seeded stacks against the basis matrices); grids stand for the continuous "
-    "parameters (shifts on a 1/4-pixel grid, five thicknesses, two tilts, two energies). Tolerance 1e-5 (phase ramps and propagators are built in "
-    "complex64 even for complex128 input; worst observed 2e-7). Negative slice thicknesses are rejected by the public setters, so the "
+    "parameters (shifts on a 1/4-pixel grid, five thicknesses, two tilts, two energies). Tolerance 1e-5 for the linear-operator identities (phase ramps and propagators are built in "
+    "complex64 even for complex128 input; worst observed 4e-7), 3e-5 for the complex64 forward chain (observed 8e-7), 2e-5 for the projection (4e-7). Negative slice thicknesses are rejected by the public setters, so the "
     "inverse-distance identity uses the internal seam ProbeBase._compute_propagator_arrays when present. Overlap arrays whose Fourier transform "
     "vanishes exactly (zero/constant arrays: the phase to keep is undefined) are outside the projection alphabet. The closed-form Fresnel kernel is "
     "compared for information only (stat max_fresnel_kernel_dev): the property states group identities, not kernel values."
@@ -48,17 +48,23 @@ RULE = (
 )
 
 ROIS = [(6, 6), (7, 10), (8, 5), (9, 9)]
+ROIS_EXTRA = [(5, 8), (10, 10)]  # thorough tier, for everything but the (cubic-cost) shift-pair lattice
 THICK = [0.5, -0.5, 3.0, -3.0, 20.0]
 TILTS = [(0.0, 0.0), (3.0, -2.0)]
 ENERGIES = [80e3, 300e3]
 SAMPLING = (0.3, 0.25)
-# Tolerance: all identities are judged at 1e-5 (absolute on matrices whose entries are O(1), relative to the input scale elsewhere).
-# Worst observed on the current tree over seeds {0,1,2,7,12345}, both tiers: shift unitary 1.3e-7, additive 2.1e-7, roll 1.2e-7;
-# propagation unitary 1.1e-7, additive/inverse 2.4e-7; adjoint 0 (exact) / 4e-16 (complex128 inner products); forward energy 4.6e-7;
-# projection amplitude 4.8e-7, idempotence 4.4e-7.  Smallest mutant effect: 1.6e-2 (fftfreq with the other axis length, quarter-pixel
-# shift on (8,5)); everything else O(0.1..1).  1e-5 is >= 20x the noise and <= 1/20 of the smallest effect.
+# Tolerances. The linear-operator identities are judged at 1e-5 (absolute on matrices whose entries are O(1), relative to the input
+# scale elsewhere); the two float32 end-to-end statements get 3e-5 / 2e-5.  Worst observed on the current tree over seeds
+# {0,1,2,7,12345}, both tiers:
+#   shift: unitary 6.8e-8, additive 4.1e-7, roll 2.9e-7, complex64 stacks vs basis 2.2e-7          -> TOL      = 1e-5 (>= 24x)
+#   propagation: |K|-1 1.4e-7, unitary 9.9e-8, additive 2.1e-7, inverse 4.5e-8                     -> TOL
+#   adjoint: matrices exact (0), complex128 inner products 2.1e-15                                  -> exact / 1e-10
+#   pure-phase intensity conservation (whole chain in complex64, up to 4 slices): 7.7e-7            -> TOL_FWD  = 3e-5 (39x)
+#   projection: amplitude 3.8e-7, idempotence 3.0e-7 (complex64)                                    -> TOL_PROJ = 2e-5 (52x)
+# Smallest mutant effect: 2.45e-3 (propagator damped by 1e-3 of its phase) = 245x TOL; projection and forward-chain mutants >= 0.4.
 TOL = 1e-5
-
+TOL_FWD = 3e-5
+TOL_PROJ = 2e-5
 
 def all_shifts(quick=True):
     """quick: every integer pair in [-3,3]^2 and the 1/4-pixel grid in [-1,1]^2 (121 vectors, the DESIGN alphabet);
@@ -71,9 +77,10 @@ def all_shifts(quick=True):
 
 def partner_shifts(quick=True):
     """Second shift of an additivity pair. quick: the half-pixel grid in [-1,1]^2 plus six quarter-pixel / larger integer vectors
-    (31 partners for each of the 121 first shifts); thorough: every shift vector (all ordered pairs)."""
+    (31 partners for each of the 121 first shifts); thorough: every vector of the quick shift alphabet (121 partners for each of
+    the 361 first shifts, which contains all ordered pairs of the DESIGN alphabet)."""
     if not quick:
-        return all_shifts(False)
+        return all_shifts(True)
     h = [-1.0, -0.5, 0.0, 0.5, 1.0]
     return [(a, b) for a in h for b in h] + [(0.25, -0.75), (-0.25, 0.25), (0.75, 0.25), (2.0, -3.0), (-3.0, 1.0), (3.0, 3.0)]
 
@@ -203,7 +210,7 @@ def judge_shift_stack(t, roi, impl, pos_dtype, dtype, seed):
     t.case(key=case, nontrivial=True)
     out = shift_apply(impl, x, [list(p) for p in pos], pos_dtype)  # (B, M, R, C)
     scale = float(np.abs(x).max())
-    tol = TOL if dtype == "complex128" else 2e-5  # complex64 FFT round-off observed 9e-7 of the input maximum
+    tol = TOL  # complex64 FFT round-off observed 2.2e-7 of the input maximum
     worst = 0.0
     for bi, p in enumerate(pos):
         U = shift_matrix(impl, roi, p, pos_dtype)
@@ -580,7 +587,7 @@ def w_forward(item, seed=0):
     t.stat("forward_energy_rel_dev", worst)
     if amp_dev > TOL:
         t.extra["forward_points_with_non_unit_object"] += 1  # would be a C10 matter; the identity below presupposes |obj| = 1
-    elif worst > TOL:
+    elif worst > TOL_FWD:
         t.fail({"relation": "pure_phase_conserves_intensity", "multislice": S > 1, "mixed": M > 1, "tilted": tilt != (0.0, 0.0)}, case, f"roi={roi} S={S} M={M} {obj_type} energy={energy:g} tilt={tilt}: summed predicted intensity / sum |probe|^2 deviates from 1 by {worst:.3g} (sum |probe|^2 = {want:.6g})")
     t.sample(case, cap=1)
     return t
@@ -618,12 +625,12 @@ def judge_projection(t, pt, roi, M, akind, scale, dtype, k, seed):
     Aq = At.numpy().astype(float)
     e = float(np.abs(got - Aq).max()) / scale
     t.stat("projection_amplitude_dev", e)
-    if e > TOL:
+    if e > TOL_PROJ:
         j = np.unravel_index(int(np.argmax(np.abs(got - Aq))), got.shape)
         t.fail({"relation": "projection_yields_measured_amplitudes", **cls}, case, f"{where}: detector amplitude of the projected wave differs from the measured amplitude by {e:.3g} (at {tuple(int(v) for v in j)}: {got[j]:.6g} vs {Aq[j]:.6g})")
     e = float((P2 - P).abs().max()) / scale
     t.stat("projection_idempotence_dev", e)
-    if e > TOL:
+    if e > TOL_PROJ:
         t.fail({"relation": "projection_idempotent", **cls}, case, f"{where}: projecting twice changes the wave by {e:.3g}")
 
 
@@ -650,21 +657,24 @@ def run(ctx):
     q = ctx.quick
     ctx.assume(
         "Fourier translation, propagation and patch gather/scatter are linear in the data, so matrix identities on the full delta basis hold for every array of that shape (linearity itself is cross-checked on seeded stacks)",
-        "continuous parameters stay on grids: integer shifts in [-3,3]^2 and a 1/4-pixel grid in [-1,1]^2 (thorough: [-4,4]^2 and 1/8 pixel); additivity pairs: every shift x the half-pixel grid plus six further vectors (thorough: all ordered pairs); thicknesses {+-0.5, +-3, 20} A; tilts {0, (3,-2) mrad}; energies {80, 300 keV}",
+        "continuous parameters stay on grids: integer shifts in [-3,3]^2 and a 1/4-pixel grid in [-1,1]^2 (thorough: [-4,4]^2 and 1/8 pixel); additivity pairs: every shift x the half-pixel grid plus six further vectors (thorough: every shift x the 121-vector quick alphabet); thicknesses {+-0.5, +-3, 20} A; tilts {0, (3,-2) mrad}; energies {80, 300 keV}",
         "non-positive slice thicknesses are rejected by the public setters; signed distances use the internal seam ProbeBase._compute_propagator_arrays (kernels installed through the public propagators setter) when it exists",
         "the measured amplitudes are detector-centred; the amplitude of the projected wave is read with the library's own DetectorPixelated.forward",
         "overlap arrays whose Fourier transform vanishes exactly somewhere (zero or constant arrays: the phase to keep is undefined, the mixed-state path regularises with eps=1e-9) are outside the projection alphabet",
         "pure-phase intensity conservation presupposes |obj| = 1, i.e. no field-of-view mask applied (C10 known finding)",
-        "tolerance 1e-5: phase ramps and propagators are complex64 even for complex128 data",
+        "tolerances: 1e-5 for the linear-operator identities (phase ramps and propagators are complex64 even for complex128 data), 3e-5 for the complex64 forward chain, 2e-5 for the projection",
         "the closed-form Fresnel kernel is compared for information only (max_fresnel_kernel_dev), kernel values are the subject of C02",
     )
 
     def once():
         t = Tally()
-        judge_shift(t, (7, 10), "torch", "float32", (0.25, -0.5), [(1.0, 2.0), (-0.75, 0.5)], ctx.seed)
+        try:
+            judge_shift(t, (7, 10), "torch", "float32", (0.25, -0.5), [(1.0, 2.0), (-0.75, 0.5)], ctx.seed)
+        except LibraryRaised as e:  # judged (as a failure) by the guarded workers below, not here
+            t.extra["selftest_library_raised_" + e.name] += 1
         t.merge(w_proj(((8, 5), 2), seed=ctx.seed, nseeded=1))
         t.merge(w_forward(((7, 10), 3, 2, "pure_phase", 80e3, (3.0, -2.0)), seed=ctx.seed))
-        return (t.n, sorted(t.outcomes), t.nfails, sorted(t.maxima.items()))
+        return (t.n, sorted(t.outcomes), t.nfails, sorted(t.maxima.items()), sorted(t.extra.items()))
 
     ctx.selftest(once)
     shifts = all_shifts(q)
@@ -672,7 +682,7 @@ def run(ctx):
     ctx.coverage["alphabet"] = {
         "roi": [list(r) for r in ROIS],
         "shifts": {"integer_pairs": "[-3,3]^2" if q else "[-4,4]^2", "sub_pixel_grid": "step 1/4 in [-1,1]^2" if q else "step 1/8 in [-1,1]^2", "count": len(shifts)},
-        "shift_pairs": f"every shift x {len(partner_shifts(q))} partners" + ("" if q else " (all ordered pairs)"),
+        "shift_pairs": f"every shift x {len(partner_shifts(q))} partners" + ("" if q else " (contains all ordered pairs of the quick alphabet)"),
         "shift_implementations": [list(i) for i in impls],
         "thicknesses_A": THICK,
         "tilts_mrad": [list(x) for x in TILTS],
@@ -685,13 +695,15 @@ def run(ctx):
     }
     items = [(roi, impl, pd, ai) for roi in ROIS for impl, pd in impls for ai in range(len(shifts))]
     ctx.pmap(w_shift, items, label="Fourier translation (full basis)", seed=ctx.seed, quick=q)
-    ctx.pmap(w_adjoint, list(itertools.product(ROIS, GEOMS)), chunk=1, label="gather/scatter adjoint (full bases)", seed=ctx.seed)
-    ctx.pmap(w_prop, list(itertools.product(ROIS, ENERGIES, TILTS)), chunk=1, label="propagation (full basis)", seed=ctx.seed)
+    rois2 = ROIS if q else ROIS + ROIS_EXTRA
+    ctx.coverage["alphabet"]["roi_other_parts"] = [list(r) for r in rois2]
+    ctx.pmap(w_adjoint, list(itertools.product(rois2, GEOMS)), chunk=1, label="gather/scatter adjoint (full bases)", seed=ctx.seed)
+    ctx.pmap(w_prop, list(itertools.product(rois2, ENERGIES, TILTS)), chunk=1, label="propagation (full basis)", seed=ctx.seed)
     et = list(itertools.product(ENERGIES, TILTS))
     ctx.coverage["alphabet"]["forward_energy_tilt"] = [[e, list(x)] for e, x in et]
-    fitems = [(roi, S, M, ot, e, x) for roi in ROIS for S in (1, 2, 3, 4) for M in (1, 2, 3) for ot in ("pure_phase", "potential") for e, x in et]
+    fitems = [(roi, S, M, ot, e, x) for roi in rois2 for S in (1, 2, 3, 4) for M in (1, 2, 3) for ot in ("pure_phase", "potential") for e, x in et]
     ctx.pmap(w_forward, fitems, chunk=2, label="pure-phase intensity conservation", seed=ctx.seed)
-    ctx.pmap(w_proj, list(itertools.product(ROIS, [1, 2, 3])), chunk=1, label="Fourier projection", seed=ctx.seed, nseeded=2 if q else 6)
+    ctx.pmap(w_proj, list(itertools.product(rois2, [1, 2, 3])), chunk=1, label="Fourier projection", seed=ctx.seed, nseeded=2 if q else 6)
     ex = ctx.tally.extra
     for name in ("seam_missing__compute_propagator_arrays", "seam_missing__get_obj_patches"):
         if ex.get(name):
